@@ -26,7 +26,8 @@ def make_graph(shape, n, rnd, outcome):
     files['default.bad.do'] = fail_do()
     leaves = ['l%d.leaf' % i for i in range(n)]
     if outcome in ('fail', 'failk'):
-        for i in sorted(rnd.sample(range(n), max(1, n // 6))):
+        used = min(n, 12) if shape == 'chain' else n        # (a chain only uses the first dozen leaves)
+        for i in sorted(rnd.sample(range(used), max(1, used // 6))):
             leaves[i] = 'l%d.bad' % i
     if shape == 'fan':
         files['top.do'] = scen.node_do(leaves, sl())
